@@ -194,6 +194,111 @@ impl std::ops::Add for Z7 {
     }
 }
 
+/// a minimal unsigned big integer (little-endian 32-bit limbs) for the counting oracle
+#[derive(Clone, PartialEq, Eq, Debug)]
+pub struct BigU(pub Vec<u32>);
+impl BigU {
+    pub fn zero() -> BigU {
+        BigU(vec![])
+    }
+    pub fn pow2(n: usize) -> BigU {
+        let mut v = vec![0u32; n / 32 + 1];
+        v[n / 32] = 1 << (n % 32);
+        BigU(v)
+    }
+    fn trim(mut self) -> BigU {
+        while self.0.last() == Some(&0) {
+            self.0.pop();
+        }
+        self
+    }
+    pub fn add(&self, o: &BigU) -> BigU {
+        let mut out = Vec::with_capacity(self.0.len().max(o.0.len()) + 1);
+        let mut carry = 0u64;
+        for i in 0..self.0.len().max(o.0.len()) {
+            let x = *self.0.get(i).unwrap_or(&0) as u64 + *o.0.get(i).unwrap_or(&0) as u64 + carry;
+            out.push(x as u32);
+            carry = x >> 32;
+        }
+        if carry > 0 {
+            out.push(carry as u32);
+        }
+        BigU(out).trim()
+    }
+    /// self - o (requires self >= o)
+    pub fn sub(&self, o: &BigU) -> BigU {
+        let mut out = Vec::with_capacity(self.0.len());
+        let mut borrow = 0i64;
+        for i in 0..self.0.len() {
+            let mut x = self.0[i] as i64 - *o.0.get(i).unwrap_or(&0) as i64 - borrow;
+            if x < 0 {
+                x += 1 << 32;
+                borrow = 1;
+            } else {
+                borrow = 0;
+            }
+            out.push(x as u32);
+        }
+        BigU(out).trim()
+    }
+    pub fn half(&self) -> BigU {
+        let mut out = vec![0u32; self.0.len()];
+        let mut carry = 0u32;
+        for i in (0..self.0.len()).rev() {
+            out[i] = (self.0[i] >> 1) | (carry << 31);
+            carry = self.0[i] & 1;
+        }
+        BigU(out).trim()
+    }
+    pub fn to_decimal(&self) -> String {
+        if self.0.is_empty() {
+            return "0".into();
+        }
+        let mut limbs = self.0.clone();
+        let mut parts: Vec<u32> = vec![];
+        while !limbs.is_empty() {
+            let mut rem = 0u64;
+            for i in (0..limbs.len()).rev() {
+                let cur = (rem << 32) | limbs[i] as u64;
+                limbs[i] = (cur / 1_000_000_000) as u32;
+                rem = cur % 1_000_000_000;
+            }
+            parts.push(rem as u32);
+            while limbs.last() == Some(&0) {
+                limbs.pop();
+            }
+        }
+        let mut s = parts.last().unwrap().to_string();
+        for p in parts.iter().rev().skip(1) {
+            s.push_str(&format!("{:09}", p));
+        }
+        s
+    }
+}
+
+/// the free term algebra as a value type for the eda arena: evaluation with it records exactly which
+/// operation was applied to which operands in which order (nothing commutes, nothing cancels)
+#[derive(Clone, PartialEq, Eq, Debug)]
+pub struct Sym(pub String);
+impl std::ops::Neg for Sym {
+    type Output = Sym;
+    fn neg(self) -> Sym {
+        Sym(format!("-({})", self.0))
+    }
+}
+impl std::ops::Mul for Sym {
+    type Output = Sym;
+    fn mul(self, o: Sym) -> Sym {
+        Sym(format!("({}*{})", self.0, o.0))
+    }
+}
+impl std::ops::Add for Sym {
+    type Output = Sym;
+    fn add(self, o: Sym) -> Sym {
+        Sym(format!("({}+{})", self.0, o.0))
+    }
+}
+
 /// a Rust value of type `Ref` or `Expr` (the operators are overloaded on both)
 pub enum Val {
     R(Ref),
@@ -509,6 +614,90 @@ impl Exec {
         }
         let c = memo[&(r.index() as usize)];
         Some(if r.is_negated() { total - c } else { c })
+    }
+
+    /// the same count for any number of variables (own big integers), diagrams up to 20000 nodes
+    pub fn count_graph_big(&self, r: Ref, n: usize) -> Option<String> {
+        let st = self.bdd().storage();
+        let cap = st.capacity();
+        let total = BigU::pow2(n);
+        let mut memo: HashMap<usize, BigU> = HashMap::new();
+        memo.insert(1, total.clone());
+        let mut stack = vec![r.index() as usize];
+        while let Some(&i) = stack.last() {
+            if memo.contains_key(&i) {
+                stack.pop();
+                continue;
+            }
+            if i == 0 || i >= cap || !st.cell_flags(i).0 || memo.len() > 20_000 {
+                return None;
+            }
+            let nd = st.cell_value(i);
+            if nd.variable == 0 || nd.variable as usize > n {
+                return None;
+            }
+            let (lo, hi) = (nd.low.index() as usize, nd.high.index() as usize);
+            match (memo.get(&lo), memo.get(&hi)) {
+                (Some(cl), Some(ch)) => {
+                    let cl = if nd.low.is_negated() { total.sub(cl) } else { cl.clone() };
+                    let ch = if nd.high.is_negated() { total.sub(ch) } else { ch.clone() };
+                    let v = cl.add(&ch).half();
+                    memo.insert(i, v);
+                    stack.pop();
+                }
+                (a, b) => {
+                    let (a, b) = (a.is_none(), b.is_none());
+                    if a {
+                        stack.push(lo);
+                    }
+                    if b {
+                        stack.push(hi);
+                    }
+                }
+            }
+        }
+        let c = memo[&(r.index() as usize)].clone();
+        Some(if r.is_negated() { total.sub(&c) } else { c }.to_decimal())
+    }
+
+    /// number of paths from `r` to the constant true in the stored diagram (complement edges flip the
+    /// target), or None when the diagram is malformed or larger than 200000 nodes
+    pub fn count_paths_graph(&self, r: Ref) -> Option<u128> {
+        let st = self.bdd().storage();
+        let cap = st.capacity();
+        // memo: (cell, parity) -> paths reaching "true" when entered with that parity
+        let mut memo: HashMap<(usize, bool), u128> = HashMap::new();
+        memo.insert((1, false), 1);
+        memo.insert((1, true), 0);
+        let start = (r.index() as usize, r.is_negated());
+        let mut stack = vec![start];
+        while let Some(&(i, p)) = stack.last() {
+            if memo.contains_key(&(i, p)) {
+                stack.pop();
+                continue;
+            }
+            if i == 0 || i >= cap || !st.cell_flags(i).0 || memo.len() > 400_000 {
+                return None;
+            }
+            let nd = st.cell_value(i);
+            let lo = (nd.low.index() as usize, p ^ nd.low.is_negated());
+            let hi = (nd.high.index() as usize, p ^ nd.high.is_negated());
+            match (memo.get(&lo).copied(), memo.get(&hi).copied()) {
+                (Some(a), Some(b)) => {
+                    memo.insert((i, p), a.saturating_add(b));
+                    stack.pop();
+                }
+                (a, b) => {
+                    if a.is_none() {
+                        stack.push(lo);
+                    }
+                    if b.is_none() {
+                        stack.push(hi);
+                    }
+                }
+            }
+        }
+        memo.get(&start).copied()
     }
 
     /// value of the diagram below `r` under the assignment `e` (bit v-1 = variable v)
@@ -1550,6 +1739,13 @@ impl Exec {
                                 self.nontrivial.insert(fnv1a(&format!("satcount {:x} {}", x, n)));
                             }
                         }
+                        if tt.is_none() && n > 120 {
+                            if let Some(want) = self.count_graph_big(rf, n) {
+                                if s != want {
+                                    self.fail(&["C13"], format!("sat_count({}, {}) = {}, counting the stored diagram gives {}", show_ref(rf), n, s, want));
+                                }
+                            }
+                        }
                         if tt.is_none() && n <= 120 {
                             // own count over the stored graph (memo keyed by the full cell index)
                             if let Some(want) = self.count_graph(rf, n as u32) {
@@ -1591,6 +1787,25 @@ impl Exec {
                                 }
                             }
                             self.nontrivial.insert(fnv1a(&format!("onesat {:x}", x)));
+                        }
+                        if tt.is_none() {
+                            match &o {
+                                None => {
+                                    if rf != self.bdd().zero {
+                                        self.fail(&["C14"], format!("one_sat({}) = None, but only the constant false has no satisfying assignment", show_ref(rf)));
+                                    }
+                                }
+                                Some(p) => {
+                                    let inc = p.windows(2).all(|w| w[0].unsigned_abs() < w[1].unsigned_abs()) && p.iter().all(|l| *l != 0);
+                                    let over: Vec<(u32, bool)> = p.iter().map(|l| (l.unsigned_abs(), *l > 0)).collect();
+                                    let bad = (0..self.samples.len().min(16)).find(|&k| self.eval_with(rf, self.samples[k], &over) == Ok(false));
+                                    if !inc {
+                                        self.fail(&["C14"], format!("one_sat literals not strictly increasing ({} literals)", p.len()));
+                                    } else if let Some(k) = bad {
+                                        self.fail(&["C14"], format!("one_sat({}) gives {} literals, but the function is false under them completed by sample {:#x}", show_ref(rf), p.len(), self.samples[k]));
+                                    }
+                                }
+                            }
                         }
                         match o {
                             Some(p) => format!("{:?}", p),
@@ -1638,6 +1853,34 @@ impl Exec {
                                 self.fail(&["C14", "C13"], format!("sum of 2^(n-len) over paths is {}, the count is {}", weighted, x.count_ones()));
                             }
                             self.nontrivial.insert(fnv1a(&format!("paths {:x}", x)));
+                        }
+                        if tt.is_none() {
+                            // every path is an implicant (on samples), paths are distinct, and there are as
+                            // many as the stored diagram has paths to true
+                            let mut seen = std::collections::HashSet::new();
+                            for (pi, p) in ps.iter().enumerate() {
+                                let inc = p.windows(2).all(|w| w[0].unsigned_abs() < w[1].unsigned_abs()) && p.iter().all(|l| *l != 0);
+                                if !inc {
+                                    self.fail(&["C14"], format!("path {} not in strictly increasing variable order", pi));
+                                    break;
+                                }
+                                if !seen.insert(p.clone()) {
+                                    self.fail(&["C14"], format!("path {} is yielded twice", pi));
+                                    break;
+                                }
+                                if pi < 400 || pi % 97 == 0 {
+                                    let over: Vec<(u32, bool)> = p.iter().map(|l| (l.unsigned_abs(), *l > 0)).collect();
+                                    if (0..4).any(|k| self.eval_with(rf, self.samples[k], &over) == Ok(false)) {
+                                        self.fail(&["C14"], format!("path {} ({} literals) is not an implicant of {}", pi, p.len(), show_ref(rf)));
+                                        break;
+                                    }
+                                }
+                            }
+                            if let Some(want) = self.count_paths_graph(rf) {
+                                if want != ps.len() as u128 {
+                                    self.fail(&["C14"], format!("paths({}) yields {} cubes, the stored diagram has {} paths to true", show_ref(rf), ps.len(), want));
+                                }
+                            }
                         }
                         format!("{:?}", ps)
                     }
@@ -2330,8 +2573,19 @@ impl Exec {
         match res {
             Ok(s) => s,
             Err(p) => {
-                let _ = panic_class(p);
-                self.fail(&["C19"], "a safe RawTable call panicked".into());
+                let msg = if let Some(s) = p.downcast_ref::<&str>() {
+                    s.to_string()
+                } else if let Some(s) = p.downcast_ref::<String>() {
+                    s.clone()
+                } else {
+                    String::new()
+                };
+                // a request for more than isize::MAX bytes cannot be satisfied: the allocator's
+                // "capacity overflow" panic is the expected outcome, like "Storage is full"
+                let unsatisfiable = toks[0] == "raw.reserve" && msg.contains("capacity overflow") && toks[1].parse::<u64>().map_or(false, |n| n >= 1 << 58);
+                if !unsatisfiable {
+                    self.fail(&["C19"], format!("a safe RawTable call panicked ({})", msg));
+                }
                 "panic assert".into()
             }
         }
@@ -2419,8 +2673,36 @@ impl Exec {
                         self.fail(&["C20"], format!("ExprBoxed::not({}) has value {}, expected {}", s0, show(value(&negd)), -d));
                     }
                 }
+                // the same with the free term algebra as the value type
+                fn to_sym(e: &ExprBoxed<Z7>) -> ExprBoxed<Sym> {
+                    match e {
+                        ExprBoxed::Term(t) => ExprBoxed::Term(Sym(t.0.to_string())),
+                        ExprBoxed::Not(a) => ExprBoxed::Not(Box::new(to_sym(a))),
+                        ExprBoxed::And(a, b) => ExprBoxed::And(Box::new(to_sym(a)), Box::new(to_sym(b))),
+                        ExprBoxed::Or(a, b) => ExprBoxed::Or(Box::new(to_sym(a)), Box::new(to_sym(b))),
+                        ExprBoxed::Xor(a, b) => ExprBoxed::Xor(Box::new(to_sym(a)), Box::new(to_sym(b))),
+                        ExprBoxed::Ite(a, b, c) => ExprBoxed::Ite(Box::new(to_sym(a)), Box::new(to_sym(b)), Box::new(to_sym(c))),
+                    }
+                }
+                fn value_sym(e: &ExprBoxed<Z7>) -> Option<String> {
+                    Some(match e {
+                        ExprBoxed::Term(t) => t.0.to_string(),
+                        ExprBoxed::Not(a) => format!("-({})", value_sym(a)?),
+                        ExprBoxed::And(a, b) => format!("({}*{})", value_sym(a)?, value_sym(b)?),
+                        ExprBoxed::Or(a, b) => format!("({}+{})", value_sym(a)?, value_sym(b)?),
+                        _ => return None,
+                    })
+                }
+                let arena_s = Arena::from_boxed(&to_sym(&e));
+                let ev_s = catch_unwind(AssertUnwindSafe(|| arena_s.eval())).ok().map(|x| x.0);
+                let direct_s = value_sym(&e);
+                if ev_s != direct_s {
+                    let cut = |o: &Option<String>| o.as_ref().map(|x| x.chars().take(120).collect::<String>()).unwrap_or("panic".into());
+                    self.fail(&["C20"], format!("over the free term algebra the arena evaluates to {}, direct recursion gives {}", cut(&ev_s), cut(&direct_s)));
+                }
+                let sym_digest = ev_s.as_ref().map(|x| fnv1a(x).to_string()).unwrap_or("panic".into());
                 self.nontrivial.insert(fnv1a(&s0));
-                format!("{} | {} | {} | {} | {} | {} | {}", s0, dbg, ts, show(ev), show(direct), back_s, show(back_v))
+                format!("{} | {} | {} | {} | {} | {} | {} | {}", s0, dbg, ts, show(ev), show(direct), back_s, show(back_v), sym_digest)
             }
             "eda.signal" => {
                 let raw: u32 = toks[1].parse().unwrap();
